@@ -5,6 +5,8 @@ C15 - a displayed value or expression means the same as the source expression.
   R15.3 parenthesis decision depends on the operand side (slice of the decision in _OperatorDelimiter)
   R15.4 every expression class without a dedicated branch reaches the generic (astor) fallback
   R15.5 truncation is always marked
+  R15.6 control characters keep their value (shared with C10)
+  R15.7 string arguments of Literal[...] are not unstringed, whatever the qualifier of Literal
 Does not decide: precedence values (astor's table is trusted), string/number spelling, line-length arithmetic.
 """
 from __future__ import annotations
@@ -324,6 +326,40 @@ def run(repo: Repo, chk: Check, thorough: bool = False) -> None:
 
     # ------------------------------------------------------------------ R15.6 control characters keep their value
     check_control_escape(repo, chk, 'R15.6')
+
+    # ------------------------------------------------------------------ R15.7 string arguments of Literal[...] stay strings
+    # unstring_annotation turns 'X' into X everywhere except inside Literal[...]: there a string IS the value.  Literal is recognised
+    # by its last component, whatever the qualifier (typing.Literal, typing_extensions.Literal, t.Literal)
+    vs = repo.func('pydoctor.astutils._AnnotationStringParser.visit_Subscript')
+    cfv = CFG(vs)
+    np_ = vs.params()[1].arg
+    raw = [n for n in vs.walk() if isinstance(n, ast.Assign) and norm(n.value) == f'{np_}.slice']
+    if not raw:
+        raise AnalysisError('R15.7: no branch of _AnnotationStringParser.visit_Subscript keeps the slice unparsed any more')
+    name_ok = attr_ok = False
+    restricted: List[str] = []
+    for a in raw:
+        facts = [(t, pol) for t, pol in cfv.dominating_tests(a) if pol]
+        strs = {c.value for t, _ in facts for c in ast.walk(t) if isinstance(c, ast.Constant) and isinstance(c.value, str)}
+        cmps = [t for t, _ in facts if isinstance(t, ast.Compare) and len(t.ops) == 1 and isinstance(t.ops[0], ast.Eq) and
+                isinstance(t.comparators[0], ast.Constant) and t.comparators[0].value == 'Literal']
+        if strs - {'Literal'}:
+            restricted.append(norm(facts[-1][0])[:80] if facts else '?')
+            continue
+        for t in cmps:
+            if isinstance(t.left, ast.Attribute) and t.left.attr == 'id':
+                name_ok = True
+            if isinstance(t.left, ast.Attribute) and t.left.attr == 'attr':
+                attr_ok = True
+            if isinstance(t.left, ast.Subscript) and norm(t.left.slice) == '-1':
+                name_ok = attr_ok = True
+    if not (name_ok and attr_ok) and not restricted:
+        raise AnalysisError('R15.7: the test recognising Literal[...] in visit_Subscript has an unknown shape (re-confirm by hand)')
+    chk.ob('R15.7', 'astutils._AnnotationStringParser.visit_Subscript :: Literal[...] is recognised under any qualifier', name_ok and attr_ok,
+           "bare name `Literal` and any `<qualifier>.Literal` keep their string arguments" if name_ok and attr_ok else
+           f'Literal is only recognised under `{restricted[0] if restricted else "?"}`: for other spellings (typing_extensions.Literal, t.Literal) the string '
+           "arguments are parsed as code, `Literal['a']` is displayed as `Literal[a]`", vs.loc)
+    chk.require('R15.7', 1)
 
 
 def check_control_escape(repo: Repo, chk: Check, rule: str) -> None:
